@@ -1152,6 +1152,66 @@ def run_reset(block, ctx):
     ctx.sample(block[0])
 
 
+# ---------------------------------------------------------------------------
+# clause: a parameter documented as "number or Angle" gives the same result in either representation
+
+def _values(r):
+    """Numeric content of a result, whatever carries it (a function given an Angle may answer with an
+    Angle where it answers a float to a float)."""
+    if isinstance(r, Angle):
+        return repr(r._deg)
+    if isinstance(r, (tuple, list)):
+        return tuple(_values(v) for v in r)
+    return canon(r)
+
+
+def check_representation(case):
+    name = case["callable"]
+    S = SP.specs()
+    spec = S[name]
+    base = base_tags(spec)
+    out = []
+    for i, (kind, b, alts) in enumerate(spec["params"]):
+        if kind != "numangle":
+            continue
+        vals = []
+        for v in [b] + list(alts):
+            x = v[1] if (isinstance(v, tuple) and v and v[0] == "A") else v
+            if isinstance(x, (int, float)) and not isinstance(x, bool) and x not in vals:
+                vals.append(x)
+        for x in vals:
+            # (an int is not tried: several of these parameters are documented as "float, Angle" only)
+            forms = [("float", float(x)), ("Angle", ("A", float(x)))]
+            res = []
+            for lab, tag in forms:
+                tags = list(base)
+                tags[i] = tag
+                k, r, _, _ = do_call(name, spec, tags, {})
+                res.append((lab, k, _values(r) if k == "ok" else type(r).__name__))
+            ref = res[0]
+            for lab, k, r in res[1:]:
+                if (k, r) != (ref[1], ref[2]):
+                    out.append("%s: parameter %d = %r as %s gives %r, as float %r" % (name, i, x, lab, r, ref[2]))
+    return out
+
+
+def run_representation(block, ctx):
+    S = SP.specs()
+    for name in block:
+        n = sum(1 for p in S[name]["params"] if p[0] == "numangle")
+        if not n:
+            continue
+        ctx.evals += 3 * n
+        ctx.transitions += 3 * n
+        ctx.states += 1
+        ctx.traces += 1
+        ctx.nt_count += 1
+        for msg in check_representation({"callable": name}):
+            ctx.viol({"callable": name}, msg, site="representation")
+        ctx.outcome(name)
+    ctx.sample({"callable": block[0]})
+
+
 def clauses(tier):
     S = SP.specs()
     names = sorted(S)
@@ -1168,6 +1228,8 @@ def clauses(tier):
         Clause("reused_arguments", chunks(order, 32), run_reuse, check_reuse, floor=100, shape="H"),
         Clause("near_arguments", chunks(order, 32), run_near, check_near, floor=100, shape="H"),
         Clause("totality", tot_blocks, run_totality, replay_totality, floor=500, shape="H"),
+        Clause("representation_forms", chunks([n for n in order if any(p[0] == "numangle" for p in SP.specs()[n]["params"])], 4),
+               run_representation, check_representation, floor=10, shape="H"),
         Clause("dense_domains", chunks(dense_cases(), 64), run_dense, lambda c: [m for _, m in check_dense(c)],
                floor=5000, shape="H"),
         Clause("object_reset", chunks(reset_cases(tier), 8), run_reset, check_reset, floor=100, shape="H"),
